@@ -11,7 +11,7 @@ use std::io::Cursor;
 use std::sync::Mutex;
 
 const FORMATS: [&str; 4] = ["xlsx", "xlsb", "xls", "ods"];
-const NAMES: [&str; 9] = ["Sheet1", "\u{91}q", "a&b", "<x>", "\u{dc}n\u{ef}", "\u{1F600}", "it's", "abcdefghijklmnopqrstuvwxyz01234", "Data \"2\""];
+const NAMES: [&str; 11] = ["Sheet1", "\u{91}q", "a&b", "<x>", "\u{dc}n\u{ef}", "\u{1F600}", "it's", "abcdefghijklmnopqrstuvwxyz01234", "Data \"2\"", " Sheet1", "Sheet1\u{a0}"];
 
 #[derive(Clone, Debug)]
 struct MSheet { name: String, vis: SheetVisible, typ: SheetType }
@@ -116,6 +116,7 @@ fn build(ch: &mut Chooser, fmt: &str) -> (Vec<u8>, Meta, Vec<(String, String)>) 
                 }
             }
             b.rel_ids_non_ascii = ch.flag("xlsb.relationship-ids-with-non-ascii-letters");
+            b.external_link_first = !m.names.is_empty() && ch.flag("xlsb.link-to-an-external-workbook-recorded-before-the-self-link");
             (xlsb::write(&b, Method::Deflated), m, expn)
         }
         "xls" => {
@@ -161,9 +162,11 @@ fn build(ch: &mut Chooser, fmt: &str) -> (Vec<u8>, Meta, Vec<(String, String)>) 
                 b.sheets.push(ods::OSheet { name: s.name.clone(), rows: vec![ods::ORow { cells: vec![(ods::OCell::new(ods::OVal::Float("1".into(), "float")), 1)], repeat: 1 }], display: match s.vis { SheetVisible::Visible => if ch.flag("ods.explicit-display-true") { Some(true) } else { None }, _ => Some(false) } });
             }
             let mut expn = vec![];
+            // the block may hold named ranges and named expressions in any interleaving
+            let kinds_swapped = if !m.names.is_empty() && ch.flag("ods.first-defined-name-is-an-expression-the-second-a-range") { 1 } else { 0 };
             for (i, (n, t)) in m.names.iter().enumerate() {
                 let q = if t.chars().all(|c| c.is_ascii_alphanumeric()) { t.clone() } else { format!("'{}'", t.replace('\'', "''")) };
-                if i % 2 == 0 { let v = format!("${q}.$B$2"); b.named.push((n.clone(), Some(v.clone()), None)); expn.push((n.clone(), v)); }
+                if (i + kinds_swapped) % 2 == 0 { let v = format!("${q}.$B$2"); b.named.push((n.clone(), Some(v.clone()), None)); expn.push((n.clone(), v)); }
                 else { let v = format!("of:=[${q}.$B$2]*2&\"<x>\""); b.named.push((n.clone(), None, Some(v.clone()))); expn.push((n.clone(), v)); }
             }
             (ods::write(&b, Method::Deflated), m, expn)
@@ -295,7 +298,7 @@ fn corpus_metadata(rep: &Report) {
 pub fn check(rep: &Report) {
     corpus_metadata(rep);
     let t = crate::thorough(&rep.tier);
-    rep.rule("workbooks = 0..3 sheets x 9 names (XML specials, quotes, non-ASCII, a C1 control character, astral, 31 characters) x visibility x kind (xlsx/xlsb: work/chart/dialog/macro; xls dt 0/1/2/6; ods display) x 0..2 reference-valued defined names x 1900/1904 (+ a date cell on every worksheet) x prefix / name packing / xls substreams stored in reverse of BoundSheet8 order / a formula-less name record before the names (xls, xlsb); per format all choice vectors with <= d deviations from (one visible worksheet 'Sheet1') and the full product over one-sheet workbooks; non-trivial = non-default; distinct by file bytes");
+    rep.rule("workbooks = 0..3 sheets x 11 names (XML specials, quotes, non-ASCII, a C1 control character, astral, 31 characters, names that differ from another one by a leading blank / a trailing no-break space only) x visibility x kind (xlsx/xlsb: work/chart/dialog/macro; xls dt 0/1/2/6; ods display) x 0..2 reference-valued defined names x 1900/1904 (+ a date cell on every worksheet) x prefix / name packing / xls substreams stored in reverse of BoundSheet8 order / a formula-less name record before the names (xls, xlsb); per format all choice vectors with <= d deviations from (one visible worksheet 'Sheet1') and the full product over one-sheet workbooks; non-trivial = non-default; distinct by file bytes");
     rep.assume("defined names are reference-valued (the one form all four readers decode); picture/VBA parts are not present");
     let stats = Mutex::new(Stats::default());
     let dev = if t { 5 } else { 3 };
